@@ -16,6 +16,7 @@ import Penguin.Lemmas.MuxStep
 import Penguin.Lemmas.LinkGlue
 import Penguin.Lemmas.MuxReach
 import Penguin.Lemmas.MuxWake
+import Penguin.Lemmas.MuxMono
 
 namespace Penguin.C08
 open Penguin Penguin.Mux
@@ -186,6 +187,20 @@ theorem every_stream_closed_after_end (o : Opts) (ops : List Mux.Op)
     cannot miss it). -/
 theorem reachable_wellformed (o : Opts) (ops : List Mux.Op) : WF (runOps { opts := o } ops) :=
   (reachable_inv o ops).1
+
+/-- "Every LATER operation completes": the end of the connection is final. Once the task has
+    finished and the outbound queue is closed, they stay so through every further history of
+    stimuli — application calls, late deliveries, anything — so `calls_after_end` (and
+    `closed_stream_read_resolves` / `closed_stream_write_fails`, all streams being closed by
+    `every_stream_closed_after_end`) apply at every later point, not only right after the wind-down. -/
+theorem the_end_is_final (e : EP) (hd : e.dead = true) (hoc : e.outClosed = true) (ops : List Mux.Op) :
+    (runOps e ops).dead = true ∧ (runOps e ops).outClosed = true :=
+  ⟨(stays_finished e ops).dead hd, (stays_finished e ops).outClosed hoc⟩
+
+/-- … and likewise a dropped `Multiplexor` handle never comes back. -/
+theorem dropped_multiplexor_stays_dropped (e : EP) (hm : e.muxAlive = false) (ops : List Mux.Op) :
+    (runOps e ops).muxAlive = false :=
+  (stays_finished e ops).muxGone hm
 
 /-- Nothing blocks forever, writers included: in every reachable state whose connection task has
     finished, every writer that was parked on flow-control credit has been woken (and, its stream
